@@ -154,7 +154,12 @@ func CFGFunc(rng *rand.Rand, name string, o CFGOpts) string {
 		case 1:
 			fmt.Fprintf(&b, "\tif %s {\n\t\tgoto L%d\n\t}\n\tgoto L%d\n", cond(), bl.succ[0], bl.succ[1])
 		case 2:
-			fmt.Fprintf(&b, "\tswitch %s & 3 {\n\tcase 0:\n\t\tgoto L%d\n\tcase 1:\n\t\tgoto L%d\n\t}\n\tgoto L%d\n", v(), bl.succ[0], bl.succ[1], bl.succ[2])
+			if rng.IntN(3) == 0 {
+				// a constant-case switch whose tag has control flow of its own
+				fmt.Fprintf(&b, "\tswitch %s {\n\tcase true:\n\t\tgoto L%d\n\tcase false:\n\t\tgoto L%d\n\t}\n\tgoto L%d\n", cond(), bl.succ[0], bl.succ[1], bl.succ[2])
+			} else {
+				fmt.Fprintf(&b, "\tswitch %s & 3 {\n\tcase 0:\n\t\tgoto L%d\n\tcase 1:\n\t\tgoto L%d\n\t}\n\tgoto L%d\n", v(), bl.succ[0], bl.succ[1], bl.succ[2])
+			}
 		case 3:
 			fmt.Fprintf(&b, "\tr = %s\n\treturn r\n", expr())
 		case 4:
